@@ -381,6 +381,9 @@ def apply_contract(ex, contract: Contract, fobj, args, kwargs, constructing=None
         st.rec(selfobj)["open"] = True
         args = [selfobj] + list(args[1:])
     env = ex.bind_params(finfo.node, args, kwargs, qn)
+    for nm_, v_ in list(env.items()):  # values whose Python kind is fixed by the callee's type argument
+        if hasattr(v_, "resolve") and isinstance(env.get("att"), str):
+            env[nm_] = v_.resolve(ex, env["att"])
     cfr = ContractFrame(finfo, env)
     for lab, text in contract.requires:
         v = _eval_clause(ex, text, cfr)
